@@ -14,6 +14,10 @@ from pathlib import Path
 from vlib import diffexec
 
 
+class BuildTimeout(diffexec.BuildError):
+    """the compiler did not finish in time (wall-clock effect: inconclusive, never a compile error)"""
+
+
 def differential(workdir, orig_sources, new_sources, driver, stdins, rtol=1e-9, atol=1e-9, timeout=120):
     """
     status: equal | differ | runtime (transformed program stopped with a run-time report / non-zero exit) |
@@ -29,6 +33,8 @@ def differential(workdir, orig_sources, new_sources, driver, stdins, rtol=1e-9, 
         return {'status': 'orig_bad', 'detail': str(e), 'runs': 0}
     try:
         nexe = build_single(nd, list(new_sources) + [driver])
+    except BuildTimeout:
+        return {'status': 'new_timeout', 'detail': 'compiling the transformed program timed out', 'runs': 0}
     except diffexec.BuildError as e:
         return {'status': 'new_build_fail', 'detail': str(e), 'runs': 0}
     nruns = 0
@@ -53,13 +59,15 @@ def differential(workdir, orig_sources, new_sources, driver, stdins, rtol=1e-9, 
     return {'status': 'equal', 'detail': '', 'runs': nruns}
 
 
-def build_single(workdir, sources, timeout=180):
+def build_single(workdir, sources, timeout=300):
     """compile and link all sources (dependency order) as one file with one gfortran invocation (cheaper under load)"""
     workdir = Path(workdir)
     workdir.mkdir(parents=True, exist_ok=True)
     text = '\n'.join(t for _, t in sources)
     (workdir / 'all.F90').write_text(text)
     rc, _, err = diffexec._run(['gfortran'] + diffexec.FFLAGS + ['all.F90', '-o', 'a.out'], workdir, timeout)
+    if rc == -999:
+        raise BuildTimeout('fc', 'compiler timed out')
     if rc != 0:
         raise diffexec.BuildError('fc', f'all.F90: {err[-1500:]}')
     return workdir / 'a.out'
